@@ -33,7 +33,7 @@ def specDel {V : Type} (e : EntrySpec V) (t : List V) (name : Key) : List V :=
 def specGet {V : Type} (e : EntrySpec V) (t : List V) (name : Key) : Option V :=
   t.find? (fun x => e.key x = e.canonKey name)
 
-/-- abstract server: current table and persisted table -/
+/-- abstract server: current table and persisted table (`none`: nothing persisted yet) -/
 structure Abs (V : Type) where
   cur : List V
   disk : Option (List V)
@@ -54,7 +54,8 @@ def Abs.step {V : Type} (e : EntrySpec V) (dflt : List V) (a : Abs V) : Op V →
 def Abs.run {V : Type} (e : EntrySpec V) (dflt : List V) (a : Abs V) (ops : List (Op V)) : Abs V :=
   ops.foldl (Abs.step e dflt) a
 
-def Abs.boot {V : Type} (e : EntrySpec V) (dflt : List V) (disk : Option (List V)) : Abs V :=
-  { cur := specLoad e dflt disk, disk := disk }
+/-- a first start with no table file -/
+def Abs.fresh {V : Type} (e : EntrySpec V) (dflt : List V) : Abs V :=
+  { cur := specLoad e dflt none, disk := none }
 
 end IpcHub.TableSpec
